@@ -255,6 +255,10 @@ theorem bindSubkey_verifies (P : KeyPrims M S σ) (law : SignLaw P) (primary : S
   · simp only [verifySubSecret, bindSubkey, checksOf, List.isEmpty_cons, Bool.not_false, Bool.true_and,
       List.all_cons, List.all_nil, Bool.and_true]
     rw [binding_verifies P law primary hm v hv]
+    simp only [hfs, hemb]
+    cases he : x.2.2 with
+    | some b => rw [he] at hb; simp at hb; simp [hb.1, hb.2]
+    | none => rw [he] at hb; simp at hb; simp [hb]
 
 theorem bindSubkeys_verify (P : KeyPrims M S σ) (law : SignLaw P) (primary : SecKey M S)
     (hm : primary.pub.mat = P.pubOf primary.sec) (v : Nat) (hv : sigVersionOf primary.pub.version = some v)
